@@ -298,7 +298,7 @@ def vet(ctx, binp, specs):
     sp = os.path.join(ctx.build, 'specs_all.ndjson')
     vlib.write_ndjson(sp, specs)
     vp = os.path.join(ctx.build, 'vet.ndjson')
-    ctx.run([binp, 'vet', sp, vp, str(min(10, vlib.NCPU)), '8000000', '20'], check=True, timeout=1500)
+    ctx.run([binp, 'vet', sp, vp, str(min(16, vlib.NCPU)), '8000000', '30'], check=True, timeout=1500)
     res = {}
     dropped = collections.Counter()
     for r in vlib.read_ndjson(vp):
@@ -458,7 +458,7 @@ def real_arms(ctx):
         mouts.append(op)
         jobs.append(lambda gp=gp, op=op, p=p: (arm.run(['multi', spath, gp, op], 'one-Interp pass %d' % p, 1500), op))
     nseqjobs = nmulti = 0
-    for r, op in run_par(jobs, 4):
+    for r, op in run_par(jobs, 6):
         if r is None:
             continue
         if op in mouts:
@@ -563,7 +563,7 @@ def real_arms(ctx):
 
     # ---- 3. randomised concurrent drivers, logs validated by TraceJobs.tla
     if th:
-        rounds = [(g, 400) for g in (16, 8, 4, 16, 12, 2)] * 5
+        rounds = [(g, {16: 520, 12: 400, 8: 400, 4: 200, 2: 120}[g]) for g in (16, 8, 4, 16, 12, 2)] * 5      # few goroutines = little parallelism: fewer jobs there
     else:
         rounds = [(16, 220), (8, 160), (4, 100), (12, 140)]
     traces = collections.defaultdict(list)      # goroutines -> [(events, round)]
@@ -601,7 +601,14 @@ def real_arms(ctx):
             elif e['kind'] not in used:
                 used.append(e['kind'])
         head = [dict(op='solo', j=0, kind=kid, fmt='', opt='', seq=0, hash=lone[kid]['hash'], solo=lone[kid]['hash']) for kid in used]
-        traces[g].append((head + evs, k))
+        # quick tier: one TLC run for all rounds (thread bound of the trace spec = the largest round), the per-round bound is counted here
+        live = peak = 0
+        for e in evs:
+            live += 1 if e['op'] == 'start' else -1
+            peak = max(peak, live)
+        if peak > g:
+            raise Inconclusive('driver round %d logged %d overlapping jobs on %d goroutines' % (k, peak, g))
+        traces[g if th else max(x for x, _ in rounds)].append((head + evs, k))
     vlib.log('driver arm done at %.0fs' % (time.time() - ctx.t0))
     ctx.cov['drivers'] = dict(rounds=len(rounds), jobs=ndrive, goroutines=sorted({g for g, _ in rounds}))
     reset = dict(op='reset', j=0, kind='', fmt='', opt='', seq=0, hash='', solo='')
